@@ -925,7 +925,8 @@ ASSERT_PROGS = {
 def assert_pass(ctx, runner, rng):
     """The same real code built with -DDEBUGLEVEL=1 (zstd's assertions enabled, library and zstdmt_compress.c / pool.c alike) under the
     adversarial schedulers: progress queries and ZSTD_sizeof_CCtx between the calls, empty jobs, worker-side failures, aborts, multi-frame
-    programs.  An assertion that fires is a crash of a legal call sequence in a debug build.  Oracles + lock-step as in the main pass."""
+    programs.  An assertion that fires is a crash of a legal call sequence in a debug build.  Oracles + lock-step as in the main pass
+    (zstd's debug threading layer allocates its mutexes and conditions: the harness names the objects through OBJ/MUX)."""
     try:
         dbg = Runner(ctx, runner.variant, defs=["-DDEBUGLEVEL=1"], model=runner.m)
     except Exception as e:  # noqa
@@ -956,6 +957,10 @@ def assert_pass(ctx, runner, rng):
             bad = r["oracles"][0]
         elif not end.startswith("END"):
             bad = "run did not finish: %s" % end
+        elif r["diff"]:
+            bad = "lock-step difference in the DEBUGLEVEL=1 build: %s" % r["diff"]
+        elif not r["note"]:
+            ctx.cov["traces_validated_against_impl"] += 1
         if bad and seen < 3:
             seen += 1
             what = "zstd built with assertions (DEBUGLEVEL=1) fails on a legal call sequence under a concrete schedule: %s" % bad
